@@ -44,8 +44,20 @@ def trace_part(chk, tier):
             forms.append([{'cs': [[{'k': 'type', 'ns': ns, 'name': cps('e')}]], 'cb': []}, {'cs': [[{'k': st}]], 'cb': []}])
     forms.append([{'cs': [[{'k': 'attr', 'ns': P('p'), 'name': cps('a'), 'op': 'ex', 'val': [], 'flag': 'n'},
                            {'k': 'attr', 'ns': P('q'), 'name': cps('a'), 'op': 'ex', 'val': [], 'flag': 'n'}]], 'cb': []}])
+    # the caller's map may use ANY prefix, also the one the library uses privately for its HTML-only lists ("html"), for any URI; an HTML
+    # state pseudo-class evaluated first in the same call must not change what the caller's prefix means afterwards (and vice versa)
+    for nm in ('e', 'circle', 'p', '*'):
+        T = {'k': 'type', 'ns': P('html'), 'name': cps(nm)}
+        forms.append([{'cs': [[T]], 'cb': []}])
+        for st in ('checked', 'link', 'disabled'):
+            forms.append([{'cs': [[{'k': st}]], 'cb': []}, {'cs': [[T]], 'cb': []}])
+            forms.append([{'cs': [[T]], 'cb': []}, {'cs': [[{'k': st}]], 'cb': []}])
+            forms.append([{'cs': [[T, {'k': 'not', 'args': [{'cs': [[{'k': st}]], 'cb': []}]}]], 'cb': []}])
+            forms.append([{'cs': [[{'k': 'type', 'ns': A_, 'name': cps('*')}, {'k': 'not', 'args': [{'cs': [[{'k': st}]], 'cb': []}]},
+                                   {'k': 'attr', 'ns': P('html'), 'name': cps('a'), 'op': 'ex', 'val': [], 'flag': 'n'}]], 'cb': []}])
     maps = [None, {'p': U1}, {'p': U2, 'q': U1}, {'': U1, 'p': U2}, {'': 'http://www.w3.org/1999/xhtml', 'svg': 'http://www.w3.org/2000/svg',
-                                                                       'q': 'http://www.w3.org/1999/xlink'}, {'': U2}]
+                                                                       'q': 'http://www.w3.org/1999/xlink'}, {'': U2},
+            {'html': 'http://www.w3.org/2000/svg'}, {'html': U1, 'p': U2}, {'html': 'http://www.w3.org/1999/xhtml'}]
     lines = []
     docs = [('xml', m) for m in XML_DOCS] + [('html5lib', HTML5)]
     for dn, (parser, markup) in enumerate(docs):
